@@ -141,8 +141,8 @@ class DeviceParameters(object):
         else:
             raise ValueError("The backend is neither a BackendV2 nor a FakeBackendV2 object")
 
-        # Supported interaction gates of the backend, in basis order. A backend without any of them is rejected before
-        # its properties are read.
+        # Supported interaction gates of the backend, in basis order. A device can list both (some pairs calibrated
+        # with ecr, the others with cx). A backend without any of them is rejected before its properties are read.
         backend_base = config.basis_gates
         int_gates = [x for x in backend_base if x == 'ecr' or x == 'cx']
 
@@ -168,16 +168,18 @@ class DeviceParameters(object):
         t_int = np.zeros((max_qubit, max_qubit))
         p_int = np.zeros((max_qubit, max_qubit))
 
-        int_info = prop.gate_property(int_gates[0])
+        int_infos = [prop.gate_property(x) for x in int_gates]
 
         if max_qubit > 1:
-            for x in int_info:
-                i = list(x)[0]
-                j = list(x)[1]
-                if i > max_qubit-1 or j > max_qubit-1:
-                    continue
-                p_int[i,j] = int_info[i,j]['gate_error'][0]
-                t_int[i,j] = int_info[i,j]['gate_length'][0]
+            # Reverse basis order: on a pair calibrated with both gates the one that comes first in the basis wins
+            for int_info in reversed(int_infos):
+                for x in int_info:
+                    i = list(x)[0]
+                    j = list(x)[1]
+                    if i > max_qubit-1 or j > max_qubit-1:
+                        continue
+                    p_int[i,j] = int_info[i,j]['gate_error'][0]
+                    t_int[i,j] = int_info[i,j]['gate_length'][0]
 
         self.t_int = t_int
         self.p_int = p_int
